@@ -1182,3 +1182,12 @@ M("c11-block-view-flagged-symmetric", "C11", MATRICES,
   '''        instance.symmetric = len(variables) == (len(variables[0]) if variables else 0)
         instance._is_transpose = False
         instance._variables = [list(row) for row in variables]  # Deep copy''', "R11.4", "MatrixVariable._from_variables", expect="analysis-error")
+M("c02-quadratic-form-sum-in-own-dtype-returns", "C02", AUTODIFF,
+  '''        Q = np.asarray(expr.matrix, dtype=np.float64)
+''', '''        Q = expr.matrix
+''', "R02.P", "gradient_quadratic_form")
+M("c11-quadratic-form-row-sum-in-own-dtype-returns", "C11", MATRICES,
+  '''        Q = np.asarray(self.matrix, dtype=np.float64)
+        Q_plus_QT = Q + Q.T
+''', '''        Q_plus_QT = self.matrix + self.matrix.T
+''', "R11.P", "jacobian_row")
